@@ -30,6 +30,13 @@ pub enum TimeVal {
   /// a literal, strictly written RFC 3339 timestamp at the edge of the calendar (index into EXTREMES): years 0000 and
   /// 9999 with offsets that push the UTC instant out of the four-digit range
   Extreme(u8),
+  /// only under a FROZEN wall clock (§2.6): the instant `now + delta` nanoseconds, written with nine fraction digits.
+  /// delta = 0 is "now" itself: not in the future (exp must be refused), not in the past either (nbf: not decided)
+  Exact(i64, Rendering),
+}
+
+pub fn clock_is_frozen() -> bool {
+  std::env::var("PV_CLOCK_FREEZE").is_ok()
 }
 
 /// (text, lies in the future)
@@ -92,6 +99,7 @@ impl TimeVal {
       TimeVal::NotATimestamp(_) => "not-a-timestamp",
       TimeVal::NearMiss(..) => "not-a-timestamp",
       TimeVal::Extreme(i) => if EXTREMES[*i as usize % EXTREMES.len()].1 { "future" } else { "past" },
+      TimeVal::Exact(d, _) => if *d > 0 { "future" } else if *d < 0 { "past" } else { "exactly-now" },
     }
   }
   /// resolve an absolute instant into Past/Future relative to `now` (None inside the margin)
@@ -124,6 +132,16 @@ impl TimeVal {
       }
       TimeVal::NotATimestamp(v) => (Some(v.clone()), true),
       TimeVal::Extreme(i) => (Some(Value::String(EXTREMES[*i as usize % EXTREMES.len()].0.to_string())), true),
+      TimeVal::Exact(d, r) => {
+        let t = now.0 as i128 * 1_000_000_000 + now.1 as i128 + *d as i128;
+        let mut r = r.clone();
+        r.digits = 9;
+        r.sep = 0;
+        if r.zulu == 2 {
+          r.zulu = 1;
+        }
+        (Some(Value::String(tgen::render((t.div_euclid(1_000_000_000)) as i64, (t.rem_euclid(1_000_000_000)) as u32, &r))), true)
+      }
     }
   }
 }
@@ -201,6 +219,8 @@ fn want_exp(v: &TimeVal, strict: bool) -> Want {
     TimeVal::NotATimestamp(_) | TimeVal::NearMiss(..) => Want::Reject,
     TimeVal::Abs(..) => Want::DontCare,
     TimeVal::Extreme(i) => if EXTREMES[*i as usize % EXTREMES.len()].1 { Want::Accept } else { Want::Reject },
+    // "rejects every token whose exp instant is not in the future": now itself is not in the future
+    TimeVal::Exact(d, _) => if *d > 0 { Want::Accept } else { Want::Reject },
   }
 }
 fn want_nbf(v: &TimeVal, strict: bool) -> Want {
@@ -218,6 +238,7 @@ fn want_nbf(v: &TimeVal, strict: bool) -> Want {
     TimeVal::NotATimestamp(_) | TimeVal::NearMiss(..) => Want::Reject,
     TimeVal::Abs(..) => Want::DontCare,
     TimeVal::Extreme(i) => if EXTREMES[*i as usize % EXTREMES.len()].1 { Want::Reject } else { Want::Accept },
+    TimeVal::Exact(d, _) => if *d > 0 { Want::Reject } else if *d < 0 { Want::Accept } else { Want::DontCare },
   }
 }
 
@@ -233,6 +254,9 @@ impl Sub for DefaultTimeRules {
     // absolute instants are rendered as they are and classified against the clock
     let (exp, exp_strict) = c.exp.materialise(now);
     let (nbf, nbf_strict) = c.nbf.materialise(now);
+    if (matches!(c.exp, TimeVal::Exact(..)) || matches!(c.nbf, TimeVal::Exact(..))) && !clock_is_frozen() {
+      return Verdict::Discard; // an instant relative to "now" in nanoseconds means something only while the clock stands still
+    }
     let (c_exp, c_nbf) = match (c.exp.resolve(now), c.nbf.resolve(now)) {
       (Some(e), Some(n)) => (e, n),
       _ => return Verdict::Discard,
@@ -291,6 +315,7 @@ impl Sub for DefaultTimeRules {
         }
         TimeVal::NearMiss(_, _, k) => cl.tag(format!("near-miss:{}", *k as usize % NEAR_MISS)),
         TimeVal::Extreme(_) => cl.tag("calendar-extreme"),
+        TimeVal::Exact(d, _) => cl.tag(format!("frozen-clock:now{}", if *d == 0 { "".to_string() } else { format!("{:+}ns", d) })),
         TimeVal::NotATimestamp(j) => cl.tag(format!("type:{}", match j { Value::Number(_) => "number", Value::Bool(_) => "bool", Value::Array(_) => "array", Value::Object(_) => "object", Value::String(s) if s.is_empty() => "empty-string", Value::String(_) => "text", Value::Null => "null" })),
         _ => {}
       }
@@ -499,6 +524,20 @@ fn grid(pid: &'static str, proto: Proto) -> Vec<TimeCase> {
         } else {
           out.push(mk(TimeVal::Absent, TimeVal::Past(d, 123_456_789, r.clone())));
           out.push(mk(TimeVal::Absent, TimeVal::Future(d.max(60), 987_654_321, r.clone())));
+        }
+      }
+    }
+  }
+  // under a frozen clock: exp / nbf on "now" to the nanosecond, and one nanosecond / microsecond / second either side
+  if clock_is_frozen() {
+    for d in [0i64, 1, -1, 1_000, -1_000, 999_999_999, -999_999_999, 1_000_000_000, -1_000_000_000] {
+      for off in [0i16, 60, -300, 1439, -1439, 345] {
+        let r = Rendering { offset_min: off, digits: 9, sep: 0, zulu: if off == 0 { 1 } else { 0 } };
+        if pid == "C11" {
+          out.push(mk(TimeVal::Exact(d, r.clone()), TimeVal::Absent));
+        } else {
+          out.push(mk(TimeVal::Absent, TimeVal::Exact(d, r.clone())));
+          out.push(mk(TimeVal::Exact(d.abs() + 5, r.clone()), TimeVal::Exact(d, r.clone())));
         }
       }
     }
